@@ -4,9 +4,34 @@ package plainmap
 
 import "strings"
 
+const hexDigits = "0123456789abcdef"
+
 // Any represent any type
 type Any interface{}
 
 func formatStringJSON(s string) string {
-	return "\"" + strings.Replace(s, "\"", "\\\"", -1) + "\""
+	var b strings.Builder
+	b.WriteByte('"')
+	for i := 0; i < len(s); i++ {
+		c := s[i]
+		switch {
+		case c == '"' || c == '\\':
+			b.WriteByte('\\')
+			b.WriteByte(c)
+		case c == '\n':
+			b.WriteString("\\n")
+		case c == '\r':
+			b.WriteString("\\r")
+		case c == '\t':
+			b.WriteString("\\t")
+		case c < 0x20:
+			b.WriteString("\\u00")
+			b.WriteByte(hexDigits[c>>4])
+			b.WriteByte(hexDigits[c&0xf])
+		default:
+			b.WriteByte(c)
+		}
+	}
+	b.WriteByte('"')
+	return b.String()
 }
